@@ -156,6 +156,9 @@ func run(c *props.Ctx) {
 	k.save3()
 	k.persist8()
 	k.persist9(pairs)
+	k.persist10()
+	k.persist11()
+	k.persist13()
 
 	if len(c.P.Controls) > 0 {
 		k.finishControls()
@@ -175,6 +178,10 @@ func run(c *props.Ctx) {
 	c.R.Floor("SAVE-1", 1)
 	c.R.Floor("PERSIST-8", 3)
 	c.R.Floor("PERSIST-9", 2)
+	c.R.Floor("PERSIST-12", 8)
+	c.R.Floor("PERSIST-10", 1)
+	c.R.Floor("PERSIST-11", 1)
+	c.R.Floor("PERSIST-13", 2)
 	c.R.Floor("SAVE-2", 1)
 	c.R.Floor("SAVE-3", 1)
 }
